@@ -112,6 +112,11 @@ def run_case(drv, rng, stats):
             fail("unknown values are not merged with the missing values although unknown_handling='drop'", error=msg[:300],
                  several_unknown=len({v for v in strs if v is not None and v not in [core.uncanon(k) for k in known]}) > 1)
         return fails
+    unknown_present = any(v is not None and v not in [core.uncanon(k) for k in known] for v in strs)
+    if unknown_present and handling == "raise":
+        fail("a value unknown to the hierarchy was accepted although unknown_handling='raise'",
+             unknown=sorted({v for v in strs if v is not None and v not in [core.uncanon(k) for k in known]})[:3])
+        return fails
     got = gl_wire(obj.values_orders["f"])
     numeric_column = any(v is not None and not isinstance(v, str) for v in vals)
     if numeric_column:
